@@ -501,3 +501,31 @@ def generator_glue(ctx, rule):
                     'it must be 0, the first (most probable) group', None, x, firm=True)
     if ok:
         ctx.ok(rule, 'lib_guesser', 'next() ends on an empty heap; create_guesses dispatches on the honeyword flag; walks start at index 0')
+
+
+def limit_exhausted_leaves(ctx, rule, floor=4):
+    """Wherever a driver loop finds its budget used up (`if limit <= 0:` after `limit = limit - n`), it LEAVES the loop (break / return).
+    (Mutation sweep: `continue` in CrackingSession.run - a negative limit is truthy, so the run went on past --limit N without end.)"""
+    sites = 0
+    ok = True
+    for q in ('lib_guesser/cracking_session.py::CrackingSession.run', 'lib_guesser/honeyword_session.py::HoneywordSession.run',
+              'lib_guesser/pcfg_grammar.py::PcfgGrammar._recursive_guesses', 'lib_guesser/pcfg_grammar.py::PcfgGrammar.omen_generate_guesses',
+              'lib_guesser/pcfg_grammar.py::PcfgGrammar.restore_omen'):
+        try:
+            fn = ctx.fn(q)
+        except Exception:       # noqa: BLE001
+            continue
+        ctx.stats['functions'].add(q)
+        for st in walk_local(fn):
+            if isinstance(st, ast.If) and isinstance(st.test, ast.Compare) and len(st.test.ops) == 1 and isinstance(st.test.left, ast.Name) \
+                    and 'limit' in st.test.left.id and isinstance(const(st.test.comparators[0]), int) \
+                    and isinstance(st.test.ops[0], (ast.LtE, ast.Lt)) and const(st.test.comparators[0]) in (0, 1):
+                sites += 1
+                last = st.body[-1] if st.body else None
+                if not isinstance(last, (ast.Break, ast.Return)):
+                    ok = False
+                    ctx.bad(rule, q, 'budget used up (%s) but the loop goes on: %s' % (U(st.test), U(last)[:30] if last is not None else ''),
+                            'with the budget at or below 0 nothing more may be generated: a negative limit is truthy, the next round subtracts '
+                            'from it again and never stops', None, st, firm=True)
+    if ctx.floor(rule, 'drivers', sites, floor, '"budget used up" tests') and ok:
+        ctx.ok(rule, 'drivers', 'all %d "budget used up" branches leave their loop' % sites)
